@@ -13,4 +13,6 @@ if [ ! -f "$here/.pydeps/.ok" ]; then
     fi
   ) 9>"$here/.pydeps.lock"
 fi
+
+PYTHONDONTWRITEBYTECODE=1 /venv/bin/python "$here/tools/validate_sx.py"
 echo "setup ok"
